@@ -53,3 +53,5 @@ Definition render_rstep (x : rstep) : list N :=
   match x with RPlain s => render_step s | RRec s => 46 :: 46 :: rec_body s end.
 Definition render_steps (steps : list rstep) : list N := flat_map render_rstep steps.
 Definition chain_path (steps : list rstep) : list N := 36 :: render_steps steps.
+(* the same path written without its leading $ (the first step is then written as after `..`) *)
+Definition chain_path0 (s : kstep) (r : list rstep) : list N := rec_body s ++ render_steps r.
